@@ -359,10 +359,10 @@ PROPS = {
         'assumptions': [],
     },
     'C16': {
-        'lean_targets': ['Cqos.Props.C16', 'Cqos.Facts.C16', 'Cqos.Facts.GluePrioV1', 'Cqos.Facts.GlueJoin'],
+        'lean_targets': ['Cqos.Props.C16', 'Cqos.Facts.C16', 'Cqos.Facts.GluePrioV1', 'Cqos.Facts.GlueJoin', 'Cqos.Props.C16s'],
         'facts': True,
         'theorems': ['Cqos.C16.c16_stop_step', 'Cqos.C16.c16_exit_bound', 'Cqos.C16.c16_quiet', 'Cqos.C16.c16_unfixed_cycle',
-                     'Cqos.C16.c16_join_stop', 'Cqos.Facts.c16_selects_offer_stop', 'Cqos.C08.c08_v1_frozen', 'Cqos.C02.c02_subsequence', 'Cqos.C03.c03_prefix', 'Cqos.Facts.gluePrioV1', 'Cqos.Facts.glueJoin'],
+                     'Cqos.C16.c16_join_stop', 'Cqos.Facts.c16_selects_offer_stop', 'Cqos.C08.c08_v1_frozen', 'Cqos.C02.c02_subsequence', 'Cqos.C03.c03_prefix', 'Cqos.Facts.gluePrioV1', 'Cqos.Facts.glueJoin', 'Cqos.SimpleV1.sys_step', 'Cqos.SimpleV1.c16_simple_progress', 'Cqos.SimpleV1.c16_simple_bound', 'Cqos.SimpleV1.c16_simple_unfixed_deadlock'],
         'runs': [{'cmd': 'stepper', 'args': ['-family', 'stops']}, {'cmd': 'jstepper', 'args': ['-family', 'mixed']},
                  {'cmd': 'blackbox', 'args': ['-scenario', 'prio1,simple1,join']}],
         'monitor_prefix': ['C16'],
@@ -372,7 +372,11 @@ PROPS = {
                        'stop-preferring step is enabled, changes no delivery and strictly decreases a measure <= 7 + 2*#priorities, so '
                        'at most that many steps lead to done; after done nothing is ever delivered; join: the stop branch is enabled in '
                        'run and while awaiting the release and ends the discipline with a frozen event log; deliveries are an in-order '
-                       'duplicate-free sub-sequence (C02/C03). The unrepaired spinning cycle is kept as a theorem. The stepper breaks the '
+                       'duplicate-free sub-sequence (C02/C03). The unrepaired spinning cycle is kept as a theorem. Simplified discipline: '
+                       'a protocol machine of main, the graceful helper, the inner discipline and the handlers (Cqos/SimpleV1.lean, its '
+                       'composition pinned by the regenerated glue skeleton): once Stop was called or the context cancelled some process '
+                       'can always move, every move decreases a measure of 17 + HandlersQuantity, so main completes - also with a graceful '
+                       'stop pending and inputs that never close; the composition before repair D4 provably deadlocks there. The stepper breaks the '
                        'breaker / cancels the context at every script position and requires every hooked call to return'),
         'level_note': 'partial: the time Go\'s select needs to pick the ready stop case among other ready cases is a runtime property; ' + 'trusted: correspondence by differential stepping; the loop-top select of v1 and the blocking Stop() call itself by black-box runs',
         'rule': 'stepper family stops (Stop or cancel at a random round, 0..H in flight) and the join stepper with stop while awaiting release',
@@ -424,12 +428,12 @@ PROPS = {
         'assumptions': ['handlers eventually release; Go schedules the discipline goroutine'],
     },
     'C19': {
-        'lean_targets': ['Cqos.Facts.C19', 'Cqos.Facts.C16', 'Cqos.Props.C16', 'Cqos.Props.C07', 'Cqos.Props.C03', 'Cqos.Props.C12'],
+        'lean_targets': ['Cqos.Facts.C19', 'Cqos.Facts.C16', 'Cqos.Props.C16', 'Cqos.Props.C07', 'Cqos.Props.C03', 'Cqos.Props.C12', 'Cqos.Props.C16s', 'Cqos.Facts.GluePrioV1'],
         'facts': True,
         'theorems': ['Cqos.Facts.c19_spawn_table', 'Cqos.Facts.c19_main_defers', 'Cqos.Facts.afterSignal_head',
                      'Cqos.Facts.c19_nothing_after_signal', 'Cqos.Facts.c19_helper_joined', 'Cqos.Facts.c19_handlers_exit', 'Cqos.Facts.c19_err_buffered', 'Cqos.Facts.c16_selects_offer_stop',
                      'Cqos.C16.c16_exit_bound', 'Cqos.C16.c16_quiet', 'Cqos.C16.c16_join_stop', 'Cqos.C07.c07_v2_only_then',
-                     'Cqos.C07.c07_v1_graceful_only_then', 'Cqos.C12.c12_close'],
+                     'Cqos.C07.c07_v1_graceful_only_then', 'Cqos.C12.c12_close', 'Cqos.SimpleV1.c19_simple_completed', 'Cqos.SimpleV1.c16_simple_bound', 'Cqos.Facts.gluePrioV1'],
         'runs': [{'cmd': 'blackbox', 'args': ['-scenario', 'all']}],
         'monitor_prefix': ['C19'],
         'level': 'proof',
